@@ -1,4 +1,4 @@
-\* W=3, one chain of 8 always-signalling blocks, every timestamp pattern with steps -1/+1/+2,
+\* W=3, one chain of 9 always-signalling blocks, every timestamp pattern with steps -1/+1/+2,
 \* start and timeout menus around the reachable median times.
 SPECIFICATION Spec
 CONSTANTS
@@ -11,10 +11,10 @@ CONSTANTS
   MinHs = {0}
   Alwayss = {0}
   Implicit = {}
-  MaxBlocks = 8
-  MaxHeight = 8
+  MaxBlocks = 9
+  MaxHeight = 9
   MaxLeaves = 1
-  MaxTime = 16
+  MaxTime = 18
   ForkHeights = {1000}
   Canonical = TRUE
   DtChoices = {0, 2, 3}
